@@ -511,6 +511,193 @@ fn run_query(searcher: &Searcher, body: Field, vocab: &[String], q: &Value, ks: 
     Ok(json!({"N": st.n_docs, "T": st.n_tokens, "df": dfj, "hits": hits, "tops": tops}))
 }
 
+// ------------------------------------------------------------------------------------------
+// big cases: segments of several thousand small documents built from a few repeated shapes
+// (document i has shape pattern[(i-1) mod p]); the judge expands them arithmetically.  Logged per
+// query: the statistics, the number of matches, per (segment, shape) the histogram of score bit
+// patterns seen by the collector and by TopDocs(K >= all), and the full observation (as in the
+// small cases) for a sample of matching documents: the first / last ones, those around every
+// 4096-document boundary of their segment, the TopDocs(10) results and a pseudo-random few.
+// ------------------------------------------------------------------------------------------
+fn run_big_case(tracer: &Tracer, case: &Value) {
+    let vocab: Vec<String> = case["vocab"].as_array().unwrap().iter().map(|w| w.as_str().unwrap().to_string()).collect();
+    let filler = case["filler"].as_str().unwrap_or("z");
+    let shapes = case["shapes"].as_array().unwrap();
+    let pattern: Vec<usize> = case["pattern"].as_array().unwrap().iter().map(|x| x.as_u64().unwrap() as usize).collect();
+    let nd = case["nd"].as_u64().unwrap() as usize;
+    let cuts: Vec<usize> = case["cuts"].as_array().unwrap().iter().map(|x| x.as_u64().unwrap() as usize).collect();
+    assert_eq!(cuts.iter().sum::<usize>(), nd);
+    tracer.emit(json!({"ev": "breset", "tag": case["tag"], "filler": filler, "vocab": vocab, "shapes": shapes, "pattern": pattern, "nd": nd, "cuts": cuts}));
+    let texts: Vec<String> = shapes.iter().map(|d| doc_text(d, filler)).collect();
+    let shape_of = |id: u64| pattern[((id - 1) as usize) % pattern.len()];
+    let built = std::panic::catch_unwind(std::panic::AssertUnwindSafe(|| -> tantivy::Result<(Index, Field)> {
+        let mut sb = Schema::builder();
+        let body = sb.add_text_field("body", TEXT);
+        let id = sb.add_u64_field("id", INDEXED | FAST | STORED);
+        let index = Index::create_in_ram(sb.build());
+        let mut w: IndexWriter = index.writer_with_num_threads(1, 50_000_000)?;
+        w.set_merge_policy(Box::new(NoMergePolicy));
+        let mut next = 0u64;
+        for c in &cuts {
+            for _ in 0..*c {
+                next += 1;
+                let mut d = TantivyDocument::new();
+                d.add_text(body, &texts[shape_of(next) - 1]);
+                d.add_u64(id, next);
+                w.add_document(d)?;
+            }
+            w.commit()?;
+        }
+        w.wait_merging_threads()?;
+        Ok((index, body))
+    }));
+    let (index, body) = match built {
+        Ok(Ok(x)) => x,
+        Ok(Err(e)) => {
+            tracer.emit(json!({"ev": "error", "where": "build", "msg": e.to_string()}));
+            return;
+        }
+        Err(p) => {
+            tracer.emit(json!({"ev": "panic", "where": "build", "msg": panic_msg(p)}));
+            return;
+        }
+    };
+    let opened = std::panic::catch_unwind(std::panic::AssertUnwindSafe(|| -> Result<(Searcher, Vec<Vec<u64>>, Value), String> {
+        let searcher = index.reader().map_err(|e| e.to_string())?.searcher();
+        let ids: Vec<Vec<u64>> = searcher.segment_readers().iter().map(seg_ids).collect();
+        let mut segs = vec![];
+        for (k, sr) in searcher.segment_readers().iter().enumerate() {
+            let inv = sr.inverted_index(body).map_err(|e| e.to_string())?;
+            let fnr = sr.get_fieldnorms_reader(body).map_err(|e| e.to_string())?;
+            let mut df = Map::new();
+            for w in &vocab {
+                df.insert(w.clone(), json!(inv.doc_freq(&Term::from_field_text(body, w)).map_err(|e| e.to_string())?));
+            }
+            let n = sr.max_doc() as usize;
+            // field-norm ids: every document is read; logged as the set of distinct ids per shape
+            let mut per_shape: BTreeMap<usize, std::collections::BTreeSet<u8>> = BTreeMap::new();
+            for d in 0..n {
+                per_shape.entry(shape_of(ids[k][d])).or_default().insert(fnr.fieldnorm_id(d as u32));
+            }
+            let fnids: Vec<Value> = per_shape.iter().map(|(s, set)| json!({"shape": s, "ids": set.iter().collect::<Vec<_>>()})).collect();
+            segs.push(json!({"first": ids[k][0], "last": ids[k][n - 1], "consecutive": ids[k].windows(2).all(|w| w[1] == w[0] + 1),
+                "max_doc": sr.max_doc(), "num_docs": sr.num_docs(), "T": inv.total_num_tokens(), "df": df, "fnids": fnids}));
+        }
+        Ok((searcher, ids, json!(segs)))
+    }));
+    let (searcher, ids, segs) = match opened {
+        Ok(Ok(x)) => x,
+        Ok(Err(e)) => {
+            tracer.emit(json!({"ev": "error", "where": "open", "msg": e}));
+            return;
+        }
+        Err(p) => {
+            tracer.emit(json!({"ev": "panic", "where": "open", "msg": panic_msg(p)}));
+            return;
+        }
+    };
+    tracer.emit(json!({"ev": "bindex", "segs": segs}));
+    for q in case["queries"].as_array().unwrap() {
+        let r = std::panic::catch_unwind(std::panic::AssertUnwindSafe(|| run_big_query(&searcher, body, &vocab, q, &ids, &shape_of, nd)));
+        match r {
+            Ok(Ok(mut v)) => {
+                v["ev"] = json!("bquery");
+                v["q"] = query_json(q);
+                tracer.emit(v);
+            }
+            Ok(Err(e)) => {
+                tracer.emit(json!({"ev": "error", "where": "query", "q": query_json(q), "msg": e}));
+            }
+            Err(p) => {
+                tracer.emit(json!({"ev": "panic", "where": "query", "stage": STAGE.with(|c| c.get()), "q": query_json(q), "msg": panic_msg(p)}));
+            }
+        }
+    }
+}
+
+fn histo_json(h: &BTreeMap<(u32, usize), BTreeMap<u32, u32>>, seg: u32, shape: usize) -> Value {
+    json!(h.get(&(seg, shape)).map(|m| m.iter().map(|(b, n)| json!({"hi": b >> 16, "lo": b & 0xffff, "n": n})).collect::<Vec<_>>()).unwrap_or_default())
+}
+
+fn run_big_query(searcher: &Searcher, body: Field, vocab: &[String], q: &Value, ids: &[Vec<u64>], shape_of: &dyn Fn(u64) -> usize, nd: usize) -> Result<Value, String> {
+    stage("build");
+    let query = build_query(q, body);
+    let mut df = BTreeMap::new();
+    for w in vocab {
+        df.insert(w.clone(), Bm25StatisticsProvider::doc_freq(searcher, &Term::from_field_text(body, w)).map_err(|e| e.to_string())?);
+    }
+    let st = Stats {
+        n_docs: Bm25StatisticsProvider::total_num_docs(searcher).map_err(|e| e.to_string())?,
+        n_tokens: Bm25StatisticsProvider::total_num_tokens(searcher, body).map_err(|e| e.to_string())?,
+        df,
+    };
+    stage("collector");
+    let mut all = searcher.search(&*query, &AllScores).map_err(|e| format!("collector: {e}"))?;
+    all.sort_by_key(|(s, d, _)| ids[*s as usize][*d as usize]);
+    stage("topdocs");
+    let top_all = searcher.search(&*query, &TopDocs::with_limit(nd + 10).order_by_score()).map_err(|e| format!("topdocs: {e}"))?;
+    let top10 = searcher.search(&*query, &TopDocs::with_limit(10).order_by_score()).map_err(|e| format!("topdocs: {e}"))?;
+    let top_score: BTreeMap<(u32, u32), f32> = top_all.iter().map(|(s, a)| ((a.segment_ord, a.doc_id), *s)).collect();
+    // histograms of score bit patterns per (segment, shape)
+    let mut h_coll: BTreeMap<(u32, usize), BTreeMap<u32, u32>> = BTreeMap::new();
+    let mut h_top: BTreeMap<(u32, usize), BTreeMap<u32, u32>> = BTreeMap::new();
+    for (seg, doc, score) in &all {
+        *h_coll.entry((*seg, shape_of(ids[*seg as usize][*doc as usize]))).or_default().entry(score.to_bits()).or_default() += 1;
+    }
+    for (s, a) in &top_all {
+        *h_top.entry((a.segment_ord, shape_of(ids[a.segment_ord as usize][a.doc_id as usize]))).or_default().entry(s.to_bits()).or_default() += 1;
+    }
+    let keys: std::collections::BTreeSet<(u32, usize)> = h_coll.keys().chain(h_top.keys()).cloned().collect();
+    let groups: Vec<Value> = keys.iter().map(|(seg, shape)| json!({"seg": seg + 1, "shape": shape, "coll": histo_json(&h_coll, *seg, *shape), "top": histo_json(&h_top, *seg, *shape)})).collect();
+    // the sample
+    let in_top10: std::collections::BTreeSet<(u32, u32)> = top10.iter().map(|(_, a)| (a.segment_ord, a.doc_id)).collect();
+    let n_all = all.len();
+    let mut hits = vec![];
+    for (i, (seg, doc, score)) in all.iter().enumerate() {
+        let id = ids[*seg as usize][*doc as usize];
+        let near = *doc % 4096 <= 2 || *doc % 4096 >= 4093;
+        let pick = i < 3 || i + 3 >= n_all || near || in_top10.contains(&(*seg, *doc)) || (id.wrapping_mul(2654435761) >> 7) % 401 == 0;
+        if !pick || hits.len() >= 120 && !in_top10.contains(&(*seg, *doc)) {
+            continue;
+        }
+        stage("observe");
+        let sr = searcher.segment_reader(*seg);
+        let o = observe_doc(sr, body, vocab, *doc);
+        let mut h = Map::new();
+        h.insert("doc".into(), json!(id));
+        h.insert("seg".into(), json!(seg + 1));
+        h.insert("local".into(), json!(doc));
+        h.insert("tfs".into(), json!(o.tf));
+        h.insert("fnid".into(), json!(o.fnid));
+        h.insert("coll".into(), score_json(*score));
+        if let Some(t) = sterm(q, &o, &st, &mut vec![]) {
+            h.insert("term".into(), sterm_json(&t));
+            h.insert("kernel".into(), score_json(k_eval(&t)));
+        } else {
+            h.insert("term".into(), json!({"k": "none"}));
+        }
+        if let Some(s) = top_score.get(&(*seg, *doc)) {
+            h.insert("top".into(), score_json(*s));
+        }
+        stage("explain");
+        match query.explain(searcher, DocAddress::new(*seg, *doc)) {
+            Ok(e) => {
+                h.insert("expl".into(), score_json(e.value()));
+            }
+            Err(e) => {
+                h.insert("expl_err".into(), json!(e.to_string()));
+            }
+        }
+        hits.push(Value::Object(h));
+    }
+    let top10j: Vec<Value> = top10.iter().map(|(s, a)| json!({"doc": ids[a.segment_ord as usize][a.doc_id as usize], "s": score_json(*s)})).collect();
+    let mut dfj = Map::new();
+    for (w, n) in &st.df {
+        dfj.insert(w.clone(), json!(n));
+    }
+    Ok(json!({"N": st.n_docs, "T": st.n_tokens, "df": dfj, "nhits": n_all, "ntop": top_all.len(), "groups": groups, "hits": hits, "top10": top10j}))
+}
+
 fn panic_msg(e: Box<dyn std::any::Any + Send>) -> String {
     if let Some(s) = e.downcast_ref::<String>() {
         s.clone()
@@ -807,7 +994,11 @@ fn main() {
                     continue;
                 }
                 let case: Value = serde_json::from_str(&line).expect("case json");
-                run_case(&tracer, &case, &explain_mode, &avoid);
+                if case["big"].as_bool() == Some(true) {
+                    run_big_case(&tracer, &case);
+                } else {
+                    run_case(&tracer, &case, &explain_mode, &avoid);
+                }
             }
         }
         _ => {
